@@ -243,11 +243,15 @@ def h_dev(ctx):
             if p0 in clim.fields["fcst"]:
                 clim.fields["fcst"][p0] = 0.0
     kw = {}
+    if ctx.choose_bool("obs-range"):
+        ov = sorted(set(obsv.values()))
+        kw["obs_range"] = [ov[1], ov[-2]]          # the smallest and the largest observation fall outside
+        ctx.flag("obsrange")
     try:
-        ref = RD.RefData(inputs, clim=clim, clim_type=clim_mode if clim else "subtract")
+        ref = RD.RefData(inputs, clim=clim, clim_type=clim_mode if clim else "subtract", **kw)
     except RD.RefError:
         ref = None
-    kind, data, site, out = CD.make_data(inputs, aclim=clim, clim_type=clim_mode if clim else "subtract")
+    kind, data, site, out = CD.make_data(inputs, aclim=clim, clim_type=clim_mode if clim else "subtract", **kw)
     if ref is None:
         ctx.require(kind == "exit", "empty-intersection-not-rejected", kind=kind)
         ctx.outcome("rejected")
@@ -271,6 +275,15 @@ def h_dev(ctx):
             else:
                 ctx.require(bool(np.array_equal(valid, base[0])), "dev:case-sets-differ-between-inputs", roles=roles, input=i)
                 ctx.require(bool(np.array_equal(obs, base[1])) or clim is not None, "dev:obs-differ-between-inputs", roles=roles, input=i)
+    # the same, asking for the LAST input first on a fresh dataset (the order of requests must not decide who is filtered)
+    if n >= 2 and kw:
+        kindr, datar, siter, _ = CD.make_data(inputs, aclim=clim, clim_type=clim_mode if clim else "subtract", **kw)
+        if kindr == "ok":
+            for i in reversed(range(n)):
+                kind2, res, site2, _ = CD.get_scores(datar, ["obs", "fcst"], i, "no", 0)
+                if kind2 == "ok":
+                    exp = ref.request(["obs", "fcst"], i, "no", 0)
+                    ctx.require(RD.rows_equal(exp, RD.impl_rows(res)), "dev:slice:obs+fcst:no:reversed-request-order", input=i, expected=exp, actual=RD.impl_rows(res))
     # differential pair: replace every non-missing forecast of input j -> the other inputs' answers are bit-identical
     if n >= 2:
         j = ctx.choose("perturb-input", list(range(n)))
@@ -278,7 +291,7 @@ def h_dev(ctx):
         for pos, v in list(inputs2[j].fields["fcst"].items()):
             if not gen.is_missing(v):
                 inputs2[j].fields["fcst"][pos] = v + 64.0
-        kindp, datap, sitep, _ = CD.make_data(inputs2, aclim=clim, clim_type=clim_mode if clim else "subtract")
+        kindp, datap, sitep, _ = CD.make_data(inputs2, aclim=clim, clim_type=clim_mode if clim else "subtract", **kw)
         if kindp == "ok":
             for i in range(n):
                 if i == j:
@@ -300,6 +313,77 @@ def h_dev(ctx):
     ctx.nontrivial(ctx.deviations > 0 and nvalid > 0)
 
 
+def h_metrics(ctx):
+    """every metric is computed on exactly the cases where every file has every quantity the metric uses: the score must not change
+    when those quantities are made missing together (in every input) wherever one of them is missing"""
+    from checks import c04_missing as C4
+    import verif.axis
+    seed = core.seed()
+    inputs = C4.dataset(seed)
+    cells = [(ii, f, pos) for ii in range(2) for f in ("obs", "fcst", "pit", "p1", "p2", "q0.1", "q0.9", "e0") for pos in inputs[0].positions()[::2]]
+    for (ii, f, pos) in cells:
+        if ctx.choose_bool("miss:%d:%s:%r" % (ii, f, pos)):
+            inputs[ii].fields[f].pop(pos, None)
+    kind, data, site, out = CD.make_data(inputs)
+    if kind != "ok":
+        ctx.fail("metrics:data-%s:%s" % (kind, site))
+        return
+    nchecked = 0
+    for name, m, iv in C4.metric_menu():
+        spy = C4.Spy(data)
+        axis = verif.axis.get("no")
+        k1, v1, s1, _ = H.quiet_call(m.compute, spy, 0, axis, iv)
+        if k1 != "ok":
+            continue
+        roles = set()
+        for fields, ii, a, ak in spy.requests:
+            for f in fields:
+                r = C4.field_role(f)
+                if r is not None:
+                    roles.add(r if isinstance(r, str) else tuple(r))
+        names = set()
+        for r in roles:
+            if isinstance(r, str):
+                names.add(r)
+            elif r[0] == "p":
+                names.add("p%s" % gen.fmt_num(r[1]))
+            elif r[0] == "q":
+                names.add("q%s" % gen.fmt_num(r[1]))
+            elif r[0] == "e":
+                names.add("e%d" % r[1])
+            else:
+                names.add(r[1])
+        names = [x for x in names if x in inputs[0].fields]
+        if len(names) < 2:
+            continue
+        # canonical dataset: the metric's quantities are missing together, in every input
+        canon = [a.copy() for a in inputs]
+        for pos in inputs[0].positions():
+            if any(a.get(f, pos) is None for a in inputs for f in names):
+                for a in canon:
+                    for f in names:
+                        a.fields[f].pop(pos, None)
+        kc, dc, sc, _ = CD.make_data(canon)
+        if kc != "ok":
+            continue
+        for i in range(2):
+            for ax in ("no", "leadtime"):
+                a1 = H.quiet_call(m.compute, data, i, verif.axis.get(ax), iv)
+                a2 = H.quiet_call(m.compute, dc, i, verif.axis.get(ax), iv)
+                if a1[0] == "ok" and a2[0] == "ok":
+                    x, y = np.asarray(a1[1], dtype=float), np.asarray(a2[1], dtype=float)
+                    nchecked += 1
+                    same = x.shape == y.shape and bool(np.all((np.isnan(x) & np.isnan(y)) | (x == y) | (np.abs(np.where(np.isfinite(x - y), x - y, np.inf)) <= 1e-9 * np.maximum(1, np.abs(np.where(np.isfinite(x), x, 1))))))
+                    if not same:
+                        ctx.fail("metrics:uses-cases-where-one-of-its-quantities-is-missing:%s" % name, quantities=sorted(names), axis=ax, input=i,
+                                 score=x.tolist(), score_on_joint_cases=y.tolist())
+    ctx.count(nchecked)
+    ctx.observe(tuple(sorted((ii, f, pos) for (ii, f, pos) in cells if pos not in inputs[ii].fields[f])))
+    ctx.outcome("dev=%d" % ctx.deviations)
+    ctx.flag("metrics")
+    ctx.nontrivial(ctx.deviations > 0)
+
+
 SUBS = {"miss16": h_miss16, "coverage": h_coverage, "coverage-cli": h_coverage, "dev": h_dev}
 
 
@@ -307,17 +391,18 @@ def plan(tier):
     if tier == "quick":
         return [("miss16", h_miss16, "full", None, None), ("coverage", h_coverage, "full", None, {"via": "mem"}),
                 ("coverage-cli", h_coverage, "full", None, {"via": "cli"}),
-                ("dev3", h_dev, "dev", 2, {"n": 3}), ("dev2-222", h_dev, "dev", 2, {"n": 2, "shape": "222"})]
+                ("dev3", h_dev, "dev", 2, {"n": 3}), ("dev2-222", h_dev, "dev", 2, {"n": 2, "shape": "222"}), ("metrics", h_metrics, "dev", 1, {})]
     return [("miss16", h_miss16, "full", None, None), ("coverage", h_coverage, "full", None, {"via": "mem"}),
             ("coverage-cli", h_coverage, "full", None, {"via": "cli"}),
             ("dev3", h_dev, "dev", 3, {"n": 3}), ("dev4", h_dev, "dev", 2, {"n": 4}),
-            ("dev2-222", h_dev, "dev", 3, {"n": 2, "shape": "222"}), ("dev1", h_dev, "dev", 3, {"n": 1})]
+            ("dev2-222", h_dev, "dev", 3, {"n": 2, "shape": "222"}), ("dev1", h_dev, "dev", 3, {"n": 1}), ("metrics", h_metrics, "dev", 2, {})]
 
 
 RULES = {
     "miss16": ("full 2^16 missingness patterns (2 inputs x obs,fcst x 4 cases)", ("missing-in-one-present-in-other",)),
     "coverage": ("full product of coverage subsets 7x7 per input x obs presence", ("obs-shared",)),
     "coverage-cli": ("as coverage, through text files and driver.run -m mae|obs -agg mean|count -x location|time", ()),
+    "metrics": ("dev over one missing cell per (input, field, case): every metric's score == its score on the dataset where the quantities it requests are made missing jointly", ("metrics",)),
 }
 
 
@@ -328,7 +413,7 @@ def run(tier, only=None):
             continue
         t0 = time.time()
         st = explore.explore(h, mode=mode, k=k, params=params, repo_root=core.REPO)
-        bound, flags = RULES.get(name, ("dev(%s) over coverage subsets, obs presence, climatology mode, one missing cell per (file, field, case), perturbed input; %r" % (k, params), ("differential", "clim")))
+        bound, flags = RULES.get(name, ("dev(%s) over coverage subsets, obs presence, climatology mode, one missing cell per (file, field, case), perturbed input; %r" % (k, params), ("differential", "clim", "obsrange")))
         subs.append(core.Sub.from_e1(name, st, bound=bound,
                                      rule="one execution = one dataset, all requests (field sets x inputs x axes x slices) compared with the reference; "
                                           "non-trivial = a case valid for all and a case missing in one file but present in another (or a strict coverage subset); "
